@@ -220,6 +220,20 @@ def check(tier, seed, replay=None):
                       "stdin": hexs(data), "_expr": "bytes"})
     cases += [{"id": 0, "argv": [], "stdin": hexs(b"[" * d + b"1" + b"]" * d), "_expr": "nesting %d" % d} for d in (1, 10, 64)]
     cases += order_stress_cases(rnd, 72 if quick else 1440)
+    # deep nesting (<= 64, the property's bound) through every printer and through the stages that add levels of their own
+    for d in (31, 32, 33, 48, 63, 64):
+        for opener, closer, leaf in ((b"[", b"]", b"1"), (b'{"k":', b"}", b"[]"), (b'[{"k":', b"}]", b'"x"')):
+            dd = d if len(opener) < 6 else d // 2
+            doc = opener * dd + leaf + closer * dd
+            for argv in (["--style=pretty"], ["--style=pretty", "--utf8-strings", "--select=. =v"], ["--style=consise", "--group-by=\"g\""], ["--style=pretty", "--merge"],
+                         ["--output-style=text"], ["--output-style=csv", "--select=. =v"], ["--style=pretty", "--select=(stringify .) =s", "--select=(parse (stringify .)) =p"]):
+                cases.append({"id": 0, "argv": argv, "stdin": hexs(doc + b"\n"), "_expr": "nesting %d %s" % (d, argv[0])})
+    # invalid and valid patterns, constant and from the data, under every cache size
+    for size in (0, 1, 2, 64):
+        for argv in (["--select=(match .s .p) =m", "--select=(extract_regex_group .s .p 1) =g"], ["--filter=(match .s \"[\")"], ["--select=(match .s \"a(\") =m", "--select=(match .s \"a\") =n"],
+                     ["--sort-by=(extract_regex_group .s \"(\" 0)"], ["--group-by=(? (match .s .p) \"y\" \"n\")"]):
+            data = b"".join(b'{"s": "%s", "p": "%s"}\n' % (sv, pv) for sv, pv in ((b"abc", b"a("), (b"abc", b"b"), (b"x", b"["), (b"abc", b"a("), (b"", b"*"), (b"abc", b"(b)"), (b"q", b"[")))
+            cases.append({"id": 0, "argv": argv + ["--regular-expression-cache-size=%d" % size], "stdin": hexs(data), "_expr": "regex cache %d" % size})
     cases += expr_cases(rnd, table, 1500 if quick else 200000)
     cases += multibyte_cases(table)
     bc = boundary_cases(table, quick)
